@@ -74,6 +74,9 @@ type gor struct {
 	lastUnlock any
 	spinPC     uintptr
 	spinN      int
+	spinning   bool
+	iterSites  map[uintptr]bool
+	bodySites  map[uintptr]bool
 }
 
 // Exec is one execution of a scenario. All exported methods are for the
@@ -132,13 +135,15 @@ func newExec(cfg Config, prefix []int, sigs map[uint64]struct{}) *Exec {
 	}
 	x.kinds = map[vhook.Kind]bool{}
 	if len(cfg.Kinds) == 0 {
-		for _, k := range []vhook.Kind{vhook.KLock, vhook.KRLock, vhook.KWGWait, vhook.KOnce, vhook.KGo, vhook.KUser} {
+		for _, k := range []vhook.Kind{vhook.KLock, vhook.KRLock, vhook.KWGWait, vhook.KOnce, vhook.KGo, vhook.KUser, vhook.KEnv, vhook.KWake} {
 			x.kinds[k] = true
 		}
 	} else {
 		for _, k := range cfg.Kinds {
 			x.kinds[k] = true
 		}
+		x.kinds[vhook.KEnv] = true
+		x.kinds[vhook.KWake] = true
 	}
 	return x
 }
@@ -293,8 +298,23 @@ func (x *Exec) point(k vhook.Kind, obj any) {
 	} else {
 		g.spinPC, g.spinN = 0, 0
 	}
+	// While a goroutine is inside the body of its spin loop (the sites it passed between its
+	// last two yields), the points it passes are not progress for other spinners: two
+	// spinners would otherwise wake each other forever and starve everything else.
+	if yield {
+		g.bodySites, g.iterSites = g.iterSites, map[uintptr]bool{}
+		g.spinning = true
+	} else {
+		if g.iterSites == nil {
+			g.iterSites = map[uintptr]bool{}
+		}
+		g.iterSites[pc] = true
+		if g.spinning && !g.bodySites[pc] {
+			g.spinning = false
+		}
+	}
 	g.lastUnlock = nil
-	auto := !x.Cfg.Fine || (x.files != nil && !x.files[file] && k != vhook.KUser)
+	auto := !x.Cfg.Fine || k == vhook.KEnv || k == vhook.KWake || (x.files != nil && !x.files[file] && k != vhook.KUser)
 	p := &parked{g: g, kind: k, obj: obj, pc: pc, yield: yield, prog: x.progress, auto: auto, ch: make(chan struct{})}
 	x.parked = append(x.parked, p)
 	x.mu.Unlock()
@@ -442,7 +462,9 @@ func (x *Exec) unparkLocked(p *parked) {
 			break
 		}
 	}
-	x.progress++
+	if !p.g.spinning {
+		x.progress++
+	}
 }
 
 func (x *Exec) tick() {
